@@ -7,11 +7,16 @@
      printer option set the text is valid and so is every single emission (what `Display` needs);
    * parser: `C17_symbol_bytes_valid`, `C17_r6rs_str_valid` — the two `from_utf8_unchecked` sites of the
      &str source return valid bytes given valid input; `C17_elisp_str_valid` — Emacs strings are
-     always checked; the slice and stream sources validate on return.
+     always checked; the slice and stream sources validate on return; `C17_token_valid` — every token;
+   * end to end (LexprModel/Proofs/Utf8Parse.lean): `C17_next_value_valid`, `C17_next_datum_valid`,
+     `C17_from_valid`, `C17_from_datum_valid` — every string, symbol and keyword of every value any
+     entry point returns is valid UTF-8, for every source, option set and input (valid input for the
+     &str source, arbitrary bytes otherwise); `C17_parse_print_valid` — parse then print is valid.
   Proved here in addition: every byte at which a scanner may stop is ASCII; the checked conversions
   reject invalid bytes.
 -/
 import LexprModel.Proofs.Utf8Valid
+import LexprModel.Proofs.Utf8Parse
 namespace Lexpr
 namespace Parse
 
